@@ -145,6 +145,30 @@ CLAIMED.update({
             "wrapping are not covered here.", "DESIGN.md section 4 C07"),
 })
 
+CLAIMED.update({
+    "C08": ("proof", TECH + " (effect model for process-global state) + AST frame audit",
+            "Partial. Decided: (a) GeophiresXClient.get_geophires_result leaves the working directory and sys.argv as "
+            "they were on EVERY exit (normal, exception, SystemExit) and reports a failing run as RuntimeError, with "
+            "main() under the contract 'may chdir, may raise, may exit' - proved by symbolic execution with cwd/argv as "
+            "ghost state (defect found and fixed: no restore on the failure path); (c) frame audit: every write to "
+            "process-level or module-level state in the run-time packages is inside a committed allow-list, so a change "
+            "introducing a new carrier of state between runs fails a named ground obligation.",
+            TRUSTED + "NOT decided (no contract within reach): numerical identity of repeated runs / other hash seeds, "
+            "and cache soundness for an input file rewritten between calls (path-keyed cache, recorded as finding F6 in "
+            "DESIGN.md).", "DESIGN.md section 4 C08"),
+    "C19": ("other", "ground obligations by evaluation of the real generator and constructors, complete over the finite "
+            "catalogue; enforcement tied to the declarations by the C07 contract's proved read-set",
+            "For the real 21 parameter sources and the HIP-RA-X source: schema keys = union of the sources' parameters; "
+            "for every identically-declared parameter the schema's type/default/units/bounds equal the declaration "
+            "ReadParameter enforces; differently-redefined parameters stay inside a committed exemption list; the three "
+            "committed JSON files equal the generated ones; result-schema categories list exactly the client's fields; "
+            "every parameter of every module class Model can instantiate is listed (24 are not: recorded as known "
+            "findings, as is the rounded bound of Maximum Drawdown).",
+            "Enumeration is complete because the quantifier is a finite catalogue; the generator is NOT proved for "
+            "arbitrary parameter maps (said in the evidence). Trusted: jsons serialisation, the real constructors (T5).",
+            "DESIGN.md section 4 C19"),
+})
+
 NOT_APPLICABLE = {
     "C13": "independence/non-replication of Monte Carlo draws across forked pool workers is a schedule/process-history "
            "property of numpy's global RNG under fork; no per-call contract can state it (DESIGN.md section 6)",
@@ -154,6 +178,11 @@ NOT_APPLICABLE = {
 }
 
 NOT_YET = "contracts for this property are not built yet in this round; not claimed until its obligations discharge"
+NOT_APPLICABLE.update({
+    "C20": "only the client's frame (cwd/argv restored, failures reported) is under contract and is reported under C08; "
+           "the CLI module body, the path algebra of main() and the Monte Carlo call site are not built, and equality "
+           "of reports across entry points is whole-program determinism, which no contract within reach decides",
+})
 
 ALL = [f"C{n:02d}" for n in range(1, 21)]
 
